@@ -253,6 +253,12 @@ func (c *connection) onProcess(onConnect OnConnect, onRequest OnRequest) (proces
 		//       So here we need to check connection state again, to avoid connection leak
 		// double check close state
 		if c.status(closing) != 0 && c.lock(processing) {
+			// Input may have arrived after the loop above found the buffer empty (the poller
+			// could not start a task for it while this one held the lock): offer it to the
+			// handler before tearing the connection down.
+			if onRequest != nil && !c.isCloseBy(user) && c.Reader().Len() > 0 {
+				goto START
+			}
 			// poller will get the processing lock failed, here help poller do closeCallback
 			// fd must already detach by poller
 			if c.isCloseBy(user) && c.operator.poll != nil {
